@@ -133,6 +133,15 @@ func (s *Solver) Close() {
 	}
 }
 
+// SetTimeout changes the per-query timeout of the running solver.
+func (s *Solver) SetTimeout(ms int) {
+	if s.isCVC5 {
+		s.send(fmt.Sprintf("(set-option :tlimit-per %d)\n", ms))
+	} else {
+		s.send(fmt.Sprintf("(set-option :timeout %d)\n", ms))
+	}
+}
+
 // Reset clears all assertions and definitions.
 func (s *Solver) Reset() {
 	s.send("(reset)\n")
